@@ -94,8 +94,17 @@ def go_scenarios(scs, timeout=900, extra_env=None):
     env = dict(GOENV)
     if extra_env:
         env.update(extra_env)
-    inp = "\n".join(json.dumps(s) for s in scs).encode()
-    rc, out, err = sh([HARNESS_BIN, "scenario"], env=env, inp=inp, timeout=timeout)
+    os.makedirs(os.path.join(BUILD, "coqcases"), exist_ok=True)
+    path = os.path.join(BUILD, "coqcases", "scen_%d_%d.jsonl" % (os.getpid(), next(_scen_counter)))
+    with open(path, "w") as f:
+        f.write("\n".join(json.dumps(s) for s in scs))
+    try:
+        rc, out, err = sh([HARNESS_BIN, "scenario", path], env=env, timeout=timeout)
+    finally:
+        try:
+            os.remove(path)
+        except OSError:
+            pass
     if rc != 0:
         raise CheckError("harness scenario run failed: rc=%d %s" % (rc, err.decode(errors="replace")[-3000:]))
     lines = [l for l in out.decode().split("\n") if l]
@@ -117,6 +126,7 @@ def make_coq(clean=False, timeout=3000):
 
 
 _coq_counter = [0]
+_scen_counter = __import__('itertools').count()
 
 
 def _big_stack():
